@@ -271,6 +271,14 @@ func checkDefectRaw(d Defect) error {
 		}
 		return fmt.Errorf("v%s ParseVector(%q) [%s at %d] reports %q (%v), documented error is %q", p.V.Name, s, d.Kind, d.Pos, got, err, want)
 	}
+	// the error belongs to the caller: after its exported field has been overwritten, the same vector
+	// must be reported exactly as before (an error value handed out twice would now name "~tampered~")
+	if adapt.Tamper(err) {
+		_, err2, _ := p.SafeParse(s)
+		if got2 := classify(p, err2); got2 != want {
+			return fmt.Errorf("v%s ParseVector(%q) [%s at %d] reports %q the second time, after the caller overwrote the Abv field of the first error it was given; documented error is %q", p.V.Name, s, d.Kind, d.Pos, got2, want)
+		}
+	}
 	return nil
 }
 
@@ -296,6 +304,10 @@ func drawDefect(rt *rapid.T) Defect {
 				// long unknown abbreviations (an error value that truncates what it carries)
 				n := []int{31, 32, 33, 64, 65, 100, 255, 256, 257, 1000, 70000}[rapid.IntRange(0, 10).Draw(rt, "abvlen")]
 				a = strings.Repeat(rapid.StringMatching(`[A-Za-z]{1,3}`).Draw(rt, "unit"), n)[:n]
+			} else if rapid.IntRange(0, 7).Draw(rt, "hdrlike") == 0 {
+				// what a header looks like to a parser that expects none / another one ("CVSS:2.0/AV:N/..." is a
+				// v2.0 vector with the unknown metric CVSS in front)
+				a = []string{"CVSS", "cvss", "Cvss", "CVSS2", "CVSSv2", "CVSS3", "VERSION", "V"}[rapid.IntRange(0, 7).Draw(rt, "hdrabv")]
 			} else if rapid.IntRange(0, 3).Draw(rt, "abvsrc") == 0 {
 				a = rapid.StringMatching(`[A-Za-z]{1,4}`).Draw(rt, "rndabv")
 			} else {
@@ -370,7 +382,7 @@ func drawDefect(rt *rapid.T) Defect {
 		if rapid.IntRange(0, 2).Draw(rt, "atend") == 0 {
 			d.Pos = n
 		}
-		val := []string{"N", "H", "X", "ND", "L"}[rapid.IntRange(0, 4).Draw(rt, "uval")]
+		val := []string{"N", "H", "X", "ND", "L", "2.0", "3.1", "4.0", ""}[rapid.IntRange(0, 8).Draw(rt, "uval")]
 		d.Arg = gen.BStr(unknownAbv() + ":" + val)
 	case "unknown-substitute":
 		d.Pos = pos(0, n, "pos")
@@ -447,6 +459,12 @@ func checkGetSetErr(c GetSetErr) error {
 		if a2, _ := p.AsInvalidMetric(err); a2 != abv || err.Error() != text {
 			return fmt.Errorf("v%s: the error returned by Get(%q) changed after later failing calls: now %q (abbreviation %q), was %q", p.V.Name, abv, err.Error(), a2, text)
 		}
+		adapt.Tamper(err)
+		if _, err2 := o.Get(abv); err2 == nil {
+			return fmt.Errorf("v%s Get(%q) succeeds the second time", p.V.Name, abv)
+		} else if a3, ok := p.AsInvalidMetric(err2); !ok || a3 != abv {
+			return fmt.Errorf("v%s Get(%q) returns %v after the caller overwrote the Abv field of the error of the previous identical call; want *ErrInvalidMetric{%q}", p.V.Name, abv, err2, abv)
+		}
 	case "set-unknown":
 		if p.V.Has(abv) {
 			return nil
@@ -461,6 +479,10 @@ func checkGetSetErr(c GetSetErr) error {
 		o.Get("QQ" + abv)
 		if a2, _ := p.AsInvalidMetric(err); a2 != abv || err.Error() != text {
 			return fmt.Errorf("v%s: the error returned by Set(%q,..) changed after later failing calls: now %q (abbreviation %q), was %q", p.V.Name, abv, err.Error(), a2, text)
+		}
+		adapt.Tamper(err)
+		if a3, ok := p.AsInvalidMetric(o.Set(abv, val)); !ok || a3 != abv {
+			return fmt.Errorf("v%s Set(%q,%q) does not return *ErrInvalidMetric{%q} after the caller overwrote the Abv field of the error of the previous identical call", p.V.Name, abv, val, abv)
 		}
 	case "set-illegal":
 		m := p.V.Metric(abv)
@@ -525,6 +547,33 @@ func TestC18(t *testing.T) {
 		}
 		return d
 	}, check)
+	if env.Shards <= 1 {
+		// exhaustive grid: Set with every pooled abbreviation that is not a metric of the version x every pooled
+		// value (an early exit on one particular value, taken before the abbreviation is looked at, is in here),
+		// and Get with every such abbreviation
+		abvs, vals := gen.AllAbvs(), gen.AllVals()
+		per := len(abvs) * (len(vals) + 1)
+		Enum(h, "getset", 4*per, func(i int) GetSetErr {
+			vi, r := i/per, i%per
+			a, k := abvs[r/(len(vals)+1)], r%(len(vals)+1)
+			if k == len(vals) {
+				return GetSetErr{Ver: vi, Op: "get-unknown", Abv: gen.BStr(a)}
+			}
+			return GetSetErr{Ver: vi, Op: "set-unknown", Abv: gen.BStr(a), Val: gen.BStr(vals[k])}
+		}, nil, checkGetSetErr)
+		if !h.replaying() {
+			unknown := 0
+			for _, v := range spec.Versions {
+				for _, a := range abvs {
+					if !v.Has(a) {
+						unknown++
+					}
+				}
+			}
+			h.R.AddExact(int64(4*per), int64(unknown*(len(vals)+1)))
+			h.R.Count(fmt.Sprintf("exhaustive: Get / Set with every pooled abbreviation unknown to the version (%d in all) x every pooled value (%d)", unknown, len(vals)), int64(4*per))
+		}
+	}
 	Rapid(h, "getset", n/3, func(rt *rapid.T) GetSetErr {
 		vi := gen.Version(rt)
 		v := spec.Versions[vi]
